@@ -43,6 +43,7 @@ type Rpc struct {
 	done  chan error
 	arrive int // arrival counter (pre-canonicalisation)
 	Dup   bool
+	clean bool // the target was idle when the request was handed over
 	pipe  *simPipeline
 	pfut  *simAppendFuture
 }
@@ -270,8 +271,10 @@ func (n *Net) Deliver(r *Rpc) bool {
 	}
 	respCh := make(chan raft.RPCResponse, 1)
 	rpc := raft.RPC{Command: r.Req, Reader: r.Data, RespChan: respCh}
+	tn := n.c.byID[r.Dst]
 	n.mu.Lock()
 	r.Phase = phInHand
+	r.clean = tn != nil && tn.inc != nil && !tn.inc.Parked() && len(tgt.ch) == 0 && tn.FSM.Waiting() == 0
 	n.mu.Unlock()
 	n.c.noteHandling(r)
 	fast := false
@@ -297,9 +300,22 @@ func (n *Net) Deliver(r *Rpc) bool {
 			return false
 		}
 	}
+	tgtInc := n.c.byID[r.Dst].inc
 	go func() {
 		select {
 		case res := <-respCh:
+			tgtInc.mu.Lock()
+			deadInc := tgtInc.dead
+			tgtInc.mu.Unlock()
+			if deadInc {
+				// the target crashed while handling (crash point inside the handler):
+				// whatever the zombie incarnation answered never reaches anybody
+				n.mu.Lock()
+				r.hResp, r.hErr = nil, errRespLost
+				r.Phase = phHandled
+				n.mu.Unlock()
+				return
+			}
 			n.mu.Lock()
 			r.hResp, r.hErr = res.Response, res.Error
 			r.Phase = phHandled
